@@ -31,7 +31,7 @@ type Msg struct {
 type Spec struct {
 	Comp  h.Comp `json:"comp"`
 	Msgs  []Msg  `json:"msgs"`
-	Saves []bool `json:"saves"` // WantSave before reading message i (cyclic)
+	Saves []bool `json:"saves"`           // WantSave before reading message i (cyclic)
 	Reuse bool   `json:"reuse,omitempty"` // read into one reused object per message type, as the patcher does
 }
 
